@@ -221,12 +221,31 @@ func genSkeletons() {
 			p = parseDir(filepath.Join(*repo, t.dir))
 			cache[t.dir] = p
 		}
-		fd := p.findFunc(t.recv, t.fn)
-		if fd.Body == nil {
-			die("skeleton: %s has no body", t.name)
-		}
-		s := &skel{fset: p.fset}
-		s.block(0, fd.Body.List)
+		// a function whose shape cannot be extracted only breaks the pins of THAT function
+		lines := func() (out []string) {
+			defer func() {
+				if r := recover(); r != nil {
+					msg := fmt.Sprint(r)
+					if gf, ok := r.(genFailure); ok {
+						msg = gf.msg
+					}
+					out = []string{"<skeleton not extractable: " + strings.Map(func(c rune) rune {
+						if c < 32 || c > 126 || c == '"' {
+							return '?'
+						}
+						return c
+					}, msg) + ">"}
+				}
+			}()
+			fd := p.findFunc(t.recv, t.fn)
+			if fd.Body == nil {
+				die("skeleton: %s has no body", t.name)
+			}
+			s := &skel{fset: p.fset}
+			s.block(0, fd.Body.List)
+			return s.out
+		}()
+		s := &skel{out: lines}
 		fmt.Fprintf(&b, "Definition skel_%s : list string := [\n", t.name)
 		for i, l := range s.out {
 			sep := ";"
